@@ -535,6 +535,29 @@ def rule_histories(ctx, ci):
             ok, why = False, "remove-last then the same placement does not restore beats %s / %r (now %s / %r)" % (e1, cb1, e2, cb2)
     ctx.check(ok, R, "found-at-beat", repo.find_method(ci, "place_notes_at").where(), "six triplet eighths, a half note, place_notes_at(<G>, 0.5), remove-last, place again", why)
 
+    # (b2) notes added at the beat an entry starts on go to that entry and to no other (the float end of the entry before
+    #      may lie an ulp above that beat: 0.1 + 1/5.0 > 0.3)
+    for label, values in (("10, 5, 8", (10.0, 5.0, 8)), ("12, 12, 12, 4", (12.0, 12.0, 12.0, 4)), ("5, 5, 10, 4", (5.0, 5.0, 10.0, 4)), ("3, 6, 4", (3.0, 6.0, 4))):
+        def go_only(it, values=values):
+            out = []
+            for k in range(len(values)):
+                b = new(it, ci, "C", (4, 4))
+                for v_ in values:
+                    it.call_method(b, "place_notes", ["C", v_], {}, None)
+                at = b.attrs["bar"][k][0]
+                it.call_method(b, "place_notes_at", ["G", at], {}, None)
+                out.append((k, at, [pitches(e[2]) for e in b.attrs["bar"]]))
+            return out
+        v, err = run1("place_notes_at on %s" % label, go_only)
+        ok, why = err is None, err
+        if ok:
+            for k, at, conts in v:
+                want = [(48, 55) if i == k else (48,) for i in range(len(conts))]
+                if conts != want:
+                    ok, why = False, "values %s: place_notes_at(<G>, %r) (the start of entry %d) leaves the entries as %s, expected %s" % (label, at, k, conts, want)
+                    break
+        ctx.check(ok, R, "at-beat-only[%s]" % label, repo.find_method(ci, "place_notes_at").where(), "entries of value %s, place_notes_at(<G>, start of each entry in turn)" % label, why)
+
     # (c) what placement takes, index assignment takes, and it touches that entry only
     forms = [("name", lambda it: "D", (50,)), ("Note", lambda it: new(it, noteci, "D", 5), (62,)), ("list of names", lambda it: ["D", "F"], (50, 53)),
              ("list of [name, octave]", lambda it: [["C", 5], ["E", 5]], (60, 64)), ("list of Notes", lambda it: [new(it, noteci, "C", 3), new(it, noteci, "G", 3)], (36, 43)),
